@@ -1,6 +1,6 @@
 """Engine K runner: regenerate the harness crate, run Kani/CBMC on all harnesses in parallel, replay failures natively."""
 import os, re, shutil, subprocess, time
-from vlib.common import VERIF, REPO, TARGET, REPO_TOOLCHAIN, GUARD_FLAGS, Inconclusive, log
+from vlib.common import VERIF, REPO, TARGET, REPO_TOOLCHAIN, GUARD_FLAGS, Inconclusive, log, point_manifest_at_repo
 from . import gen
 
 KDIR = os.path.join(VERIF, 'kani')
@@ -19,6 +19,7 @@ def _env(kani=True):
 
 
 def prepare(harnesses):
+    point_manifest_at_repo(KDIR)
     shutil.copyfile(os.path.join(REPO, 'Cargo.lock'), os.path.join(KDIR, 'Cargo.lock'))
     os.makedirs(os.path.join(KDIR, 'src', 'bin'), exist_ok=True)
     gen.write_lib(os.path.join(KDIR, 'src', 'lib.rs'), harnesses)
